@@ -390,6 +390,73 @@ def g5_pair(rng):
     return jig(a), jig(b)
 
 
+def _r32(v):
+    import struct
+    return struct.unpack("f", struct.pack("f", float(v)))[0]
+
+
+def _ulps32(x, k):
+    """k single-precision ulps away from the single-precision number x"""
+    import struct
+    if x == 0.0:
+        return k * 2.0 ** -20
+    bits = struct.unpack("i", struct.pack("f", x))[0]
+    bits += k if x > 0 else -k
+    return struct.unpack("f", struct.pack("i", bits))[0]
+
+
+def g5f32_pair(rng):
+    """touching lattice triangles whose coordinates are jiggled by a few SINGLE-precision ulps (all values
+    are f32 numbers): the f32 instance of corner case 1 and of vertices half an ulp off an edge"""
+    a, b = g3_pair(rng)
+    def jig(mp):
+        out = []
+        for p in mp:
+            rp = []
+            for r in p:
+                pts = []
+                for (x, y) in r[:-1]:
+                    fx, fy = _r32(x), _r32(y)
+                    if fx != 0.0 and rng.random() < 0.4:
+                        fx = _ulps32(fx, rng.choice([-2, -1, 1, 2]))
+                    if fy != 0.0 and rng.random() < 0.4:
+                        fy = _ulps32(fy, rng.choice([-2, -1, 1, 2]))
+                    pts.append((fx, fy))
+                rp.append(pts + [pts[0]])
+            out.append(rp)
+        return out
+    return jig(a), jig(b)
+
+
+def g20_f32_vertex_near_edge_pair(rng):
+    """f32: a vertex of one operand within half a single-precision ulp of an edge of the other (its exact
+    position on the edge is not representable), or half an ulp inside an almost vertical edge; all
+    coordinates are f32 numbers (seeds C10-5, C10-6)"""
+    for _try in range(100):
+        if rng.random() < 0.5:
+            # edge (0,0) -> (p, q); vertex at x = i with y = fl32(i q / p)
+            p_, q_ = rng.randint(2, 7), rng.randint(1, 5)
+            i = rng.randint(1, p_ - 1)
+            if (i * q_) % p_ == 0:
+                continue
+            v = (float(i), _r32(i * q_ / p_))
+            a = [[[(0.0, 0.0), (float(p_), float(q_)), (float(p_), float(q_ + rng.randint(1, 3))), (0.0, float(q_ + rng.randint(1, 3))), (0.0, 0.0)]]]
+            w1 = (float(rng.randint(i + 1, p_ + 2)), float(rng.randint(-3, 0)))
+            w2 = (w1[0], float(rng.randint(1, q_ + 2)))
+            b = [[[v, w1, w2, v]]]
+        else:
+            # almost vertical edge (x0 + k ulp, 0) -> (x0, h); a vertex of the other operand at (x0, h/2)
+            x0 = rng.choice([1.5, 2.5, 3.0, 1.25])
+            k = rng.choice([1, 1, 2, 3])
+            h = float(rng.randint(1, 3))
+            a = [[[(0.0, 0.0), (_ulps32(_r32(x0), k), 0.0), (_r32(x0), h), (0.0, h), (0.0, 0.0)]]]
+            ym = _r32(h * rng.choice([0.25, 0.5, 0.75]))
+            v = (_r32(x0), ym)
+            b = [[[v, (_r32(x0) + 1.0, 0.0), (_r32(x0) + 1.0, h + 1.0), v]]]
+        return (a, b) if rng.random() < 0.5 else (b, a)
+    return g5f32_pair(rng)
+
+
 def g5_negzero_pair(rng):
     """an almost vertical edge whose top vertex has x = -0.0, crossed by edges whose intersection abscissa
     is clamped to that vertex' x: the corner-case-1 bump of divide_segment then starts from -0.0"""
@@ -859,6 +926,8 @@ FAMILIES = {
     "g17": g17_vertex_on_edge_pair,
     "g18": g18_nested_pair,
     "g19": g19_self_touching_pair,
+    "g5f32": g5f32_pair,
+    "g20": g20_f32_vertex_near_edge_pair,
 }
 # families on which all arithmetic is exact by construction / usually exact / never exact
 EXACT_FAMILIES = {"g1", "g10", "g12", "g13", "g14", "g15", "g16", "g18"}
